@@ -2,6 +2,7 @@ ID='C11'
 FILE='runtime/internal/lib/runtime/sema_llgo.go'
 V='runtime/internal/lib/sync/atomic/value.go'
 MUTANTS=[
+ ('notify-compare-not-wrap-safe', 'for int32(latomic.LoadUint32(&l.notify)-t) <= 0 {', 'for latomic.LoadUint32(&l.notify) <= t {'),
  ('revert-sema-retry', '\t\t\t\t// Lost the race for one token; others may be left and\n\t\t\t\t// nobody will signal for them.\n\t\t\t\tcontinue\n', ''),
  ('revert-notify-cond', 'for int32(latomic.LoadUint32(&l.notify)-t) <= 0 {', 'for latomic.LoadUint32(&l.notify) == t {'),
  ('notifyone-signal', 'st.cond.Broadcast()\n\t}\n\tst.mu.Unlock()\n}\n\n//go:linkname sync_runtime_notifyListCheck', 'st.cond.Signal()\n\t}\n\tst.mu.Unlock()\n}\n\n//go:linkname sync_runtime_notifyListCheck'),
